@@ -126,6 +126,46 @@ def run(ctx):
             shok = True
     ctx.check(shok, "E1", "shndx", "shndx == 0 || shndx < number_of_sections is a fact when the iterator is returned (the string-table header is one of the n entries)",
               A.site(), how="disjunctive dominating fact", why="facts: %s" % [G.show(f)[:160] for f in (facts or [])])
+    # E1x: the rejection is exact - "a tag whose entry count, entry size or string-table index would reach outside the tag is
+    # rejected" has the converse "a tag whose n entries fit (and whose string-table index designates one of them, or none) is
+    # iterated".  Every panic edge of sections() that no fact rules out lies under `n * entry_size > len` or under
+    # `shndx != 0 && shndx >= n`; an extra test (`assert!(shndx != 0)`, a lower bound on n) keeps E1's facts and is reported here
+    from .. import panic as P_
+    bad_, ne_ = [], 0
+    for s_ in P_.sites_of(F, ss[0]):
+        if s_.status == "discharged" or s_.kind in ("overflow", "unchecked"):
+            continue
+        ne_ += 1
+        jb_ = s_.bb
+        for _ in range(4):
+            pp_ = A.body.pred[jb_]
+            if len(pp_) == 1 and A.body.term(pp_[0][0])["k"] in ("goto", "call"):
+                jb_ = pp_[0][0]
+            else:
+                break
+        preds_ = A.body.pred[jb_]
+        sets_ = [[N(f) for f in A.g.facts_at(s_.bb)]]
+        if len(preds_) > 1:
+            sets_ = [[N(f) for f in list(A.g.facts_at(p_)) + list(A.g.edge_facts(p_, jb_, lab_))] for (p_, lab_) in preds_]
+        for fs_ in sets_:
+            if ("const", False) in fs_:
+                continue
+            if s_.kind == "maypanic" and "split_at" in str(s_.what) and len(s_.terms) >= 2 and N(s_.terms[0]) == secs and \
+                    N(s_.terms[1]) in (("bin", "Mul", sh_t, es_t), ("bin", "Mul", es_t, sh_t)):
+                # `sections.split_at(shndx * entry_size)`: in bounds under the two admission facts (shndx <= n, so
+                # shndx * entry_size <= n * entry_size <= len - monotonicity of the product, a hand step)
+                fit_here = any(f[0] == "cmp" and ((f[1] == "Le" and f[2] in prod and f[3] == ("len", secs)) or (f[1] == "Ge" and f[3] in prod and f[2] == ("len", secs))) for f in fs_)
+                sh_here = any(f[0] == "or" or f in (("cmp", "Lt", sh_t, n_t), ("cmp", "Gt", n_t, sh_t)) for f in fs_)
+                if fit_here and sh_here:
+                    continue
+            too_big = any(f[0] == "cmp" and ((f[1] == "Gt" and f[2] in prod and f[3] == ("len", secs)) or (f[1] == "Lt" and f[3] in prod and f[2] == ("len", secs))) for f in fs_)
+            far = (("cmp", "Ne", sh_t, ("c", 0)) in fs_ or G.entails(fs_, ("cmp", "Ge", sh_t, ("c", 1))) is not None) and \
+                (("cmp", "Ge", sh_t, n_t) in fs_ or ("cmp", "Le", n_t, sh_t) in fs_ or G.entails(fs_, ("cmp", "Ge", sh_t, n_t)) is not None)
+            if not (too_big or far):
+                bad_.append("%s %s under %s" % (s_.kind, s_.what, [G.show(f)[:70] for f in fs_][:4]))
+    ctx.check(not bad_, "E1x", "exact-rejection", "sections() diverges only when the n entries do not fit (n * entry_size > len) or the string-table index is "
+              "neither 0 nor one of them (shndx != 0 && shndx >= n)", A.site(), how="%d panic edge(s), each under one of the two rejecting conditions" % ne_,
+              why="; ".join(bad_)[:500])
     # who constructs the iterator / sections
     for (adt, allowed, what) in ((ITER, ("sections",), "ElfSectionIter"), (SEC, ("next",), "ElfSection")):
         from .. import inline as INL
